@@ -110,7 +110,18 @@ func c01Twice(ctx *core.Ctx) {
 		if refs[len(refs)-1].svc != refs[0].svc {
 			same = "across-services"
 		}
-		ctx.Count(fmt.Sprintf("twice-%s-%s-%s-present=%v", attr, same, strings.Join(pattern, ">"), present))
+		// histogram: which references come first matters (an optional one BEFORE a required one is the class a cache keyed by path gets wrong)
+		order := "all-required"
+		switch first, last := strings.Index(strings.Join(pattern, ">"), "opt"), strings.LastIndex(strings.Join(pattern, ">"), "req"); {
+		case first < 0:
+		case last < 0:
+			order = "all-optional"
+		case first < last:
+			order = "optional-before-required"
+		default:
+			order = "required-before-optional"
+		}
+		ctx.Count(fmt.Sprintf("twice-%s-%s-%s-present=%v", attr, same, order, present))
 		ctx.Add("c01load", c01Args{Req: core.LoadReq{Files: files, ConfigFiles: cfs, ProjectName: "p"}, Mode: mode,
 			Shape: fmt.Sprintf("twice/%s/%s/%s/present=%v", attr, same, strings.Join(pattern, ">"), present), Expect: exp})
 	}
